@@ -268,6 +268,30 @@ def scan(root, results, keys, hexness):
 # strace -> key directory events
 # ------------------------------------------------------------------------------------------
 _SYS = re.compile(r'^\d+\s+(\w+)\((.*)\)\s+=\s+(-?\d+|\?)')
+_UNFINISHED = re.compile(r'^(\d+)\s+(\w+)\((.*) <unfinished \.\.\.>\s*$')
+_RESUMED = re.compile(r'^(\d+)\s+<\.\.\. (\w+) resumed>(.*)$')
+
+
+def strace_lines(path):
+    """complete syscall lines of a `strace -f -o` file, `<unfinished ...>` / `<... resumed>` pairs joined
+    (the joined line is placed where the call STARTED, which is what ordering arguments need)"""
+    out = []
+    pending = {}
+    for line in open(path, errors="replace"):
+        line = line.rstrip("\n")
+        m = _UNFINISHED.match(line)
+        if m:
+            pending[(m.group(1), m.group(2))] = len(out)
+            out.append("%s %s(%s" % (m.group(1), m.group(2), m.group(3)))
+            continue
+        m = _RESUMED.match(line)
+        if m:
+            ix = pending.pop((m.group(1), m.group(2)), None)
+            if ix is not None:
+                out[ix] = out[ix] + m.group(3)
+            continue
+        out.append(line)
+    return out
 
 
 def keydir_trace(root):
@@ -277,7 +301,7 @@ def keydir_trace(root):
     ev = []
     i = 0
     while os.path.exists(os.path.join(root, "strace.%d.txt" % i)):
-        for line in open(os.path.join(root, "strace.%d.txt" % i), errors="replace"):
+        for line in strace_lines(os.path.join(root, "strace.%d.txt" % i)):
             m = _SYS.match(line)
             if not m:
                 continue
@@ -305,5 +329,360 @@ def keydir_trace(root):
     return ev
 
 
+
+def writes_outside(root):
+    """paths opened for writing outside the scratch tree in the straced runs (an unknown sink)"""
+    bad = set()
+    i = 0
+    while os.path.exists(os.path.join(root, "strace.%d.txt" % i)):
+        for line in strace_lines(os.path.join(root, "strace.%d.txt" % i)):
+            m = _SYS.match(line)
+            if not m or m.group(1) not in ("open", "openat", "openat2", "creat"):
+                continue
+            args, ret = m.group(2), m.group(3)
+            if ret.startswith("-") or ret == "?":
+                continue
+            if not (m.group(1) == "creat" or re.search(r"O_WRONLY|O_RDWR|O_CREAT", args)):
+                continue
+            paths = re.findall(r'"((?:[^"\\]|\\.)*)"', args)
+            if not paths:
+                continue
+            pth = os.path.normpath(paths[0])
+            if pth.startswith(root) or pth in ("/dev/console", "/dev/null", "/dev/tty") or pth.startswith("/proc/") or pth.startswith("/dev/pts"):
+                continue
+            bad.add(pth)
+        i += 1
+    return sorted(bad)
+
+
+# ------------------------------------------------------------------------------------------
+# rendering to Coq, the model's prediction
+# ------------------------------------------------------------------------------------------
+REQ = ("From GPA Require Import Taint.\nFrom Coq Require Import List NArith Bool.\nImport ListNotations.\n"
+       "Open Scope N_scope.")
+
+
+def cbool(b):
+    return "true" if b else "false"
+
+
+def coq_op(op):
+    if op[0] == "poll":
+        _, st, k, a = op
+        if st[0] == "ok":
+            s = "(SOk %s %s %d)" % (cbool(st[1]), "(Some %d)" % st[2] if st[2] is not None else "None", st[3])
+        else:
+            s = {"err": "SErr", "malformed": "SMalformed", "invalid": "SInvalid"}[st[0]]
+        if k[0] == "ok":
+            kk = "(KOk %d %s)" % (k[1], cbool(k[2]))
+        elif k[0] == "err":
+            kk = "KErr"
+        else:
+            kk = "(KMalformed %d %s)" % (k[1], {"early": "Early", "mid": "Mid", "far": "Far"}[k[2]])
+        return "Poll %s %s %s" % (s, kk, "AOk" if a == "ok" else "AErr")
+    if op[0] == "provision":
+        return "ProvisionQuery %s" % cbool(op[1])
+    return {"restart": "Restart", "client": "ClientRequest", "timeup": "ProvisionTimeup", "status_tick": "StatusTick"}[op[0]]
+
+
+def coq_history(hist):
+    return "[" + "; ".join(coq_op(o) for o in hist) + "]" if hist else "(@nil op)"
+
+
+def coq_variant(v):
+    return "{| fix_hex := %s; fix_body := %s |}" % (cbool(v[0]), cbool(v[1]))
+
+
+def model_eval(ctx, variant, hists, name="cases"):
+    exprs = ["(vector (run %s %s), map sys_code (sys_trace %s %s))" % (coq_variant(variant), coq_history(h), coq_variant(variant), coq_history(h))
+             for h in hists]
+    res = vplib.coq_eval(ctx, REQ, exprs, shard=25, name=name)
+    out = []
+    for vec, tr in res:
+        d = {s: [] for s in SINKS}
+        for item in vec:
+            d[item[0]] = sorted(item[1])
+        out.append((d, [tuple(x) for x in tr]))
+    return out
+
+
+def trace_codes(ev):
+    """observed key-directory events -> the model's sys_code alphabet"""
+    out = []
+    for name, arg in ev:
+        if name == "mkdir":
+            out.append((0, 0))
+        elif name == "chown":
+            out.append((1, (arg[0] * 65536 + arg[1]) if arg else -1))
+        elif name == "chmod":
+            out.append((2, arg if arg is not None else -1))
+        elif name == "create":
+            out.append((3, 0 if arg == "keyfile" else 1))
+    return out
+
+
+def prop_trace(ev):
+    """the property's second sentence on an observed syscall trace: the key directory is root-owned
+    and 0700 (and nothing undid that) before anything is created in it"""
+    chowned, mode = False, None
+    for name, arg in ev:
+        if name == "mkdir":
+            chowned, mode = False, 0o755
+        elif name == "chown":
+            chowned = (arg == (0, 0))
+        elif name == "chmod":
+            mode = arg
+        elif name == "create":
+            if mode != 0o700:
+                return "a file was created in the key directory while its mode was %s, not 0700" % (oct(mode) if mode is not None else "unset")
+            if not chowned:
+                return "a file was created in the key directory before it was chown'ed to root:root"
+    return None
+
+
+# ------------------------------------------------------------------------------------------
+# history generator
+# ------------------------------------------------------------------------------------------
+WITNESS_HEX = [("poll", ("ok", True, None, 1), ("ok", 1, False), "ok"),
+               ("poll", ("ok", True, 1, 1), ("err",), "ok"), ("client",)]
+WITNESS_BODY = [("poll", ("ok", True, None, 1), ("malformed", 1, "early"), "ok"),
+                ("status_tick",), ("provision", False), ("timeup",)]
+FIXED_CASES = [
+    # latch, use, rotate, disable, restart, enable again from the local file
+    [("poll", ("ok", True, None, 1), ("ok", 1, True), "ok"), ("client",), ("poll", ("ok", True, None, 1), ("ok", 2, True), "ok"),
+     ("poll", ("ok", False, 2, 1), ("err",), "ok"), ("restart",), ("poll", ("ok", True, 2, 1), ("err",), "ok"), ("client",),
+     ("status_tick",), ("provision", True), ("timeup",)],
+    # every status fault, then a latch; a rule change
+    [("poll", ("err",), ("err",), "ok"), ("provision", True), ("poll", ("malformed",), ("err",), "ok"), ("status_tick",),
+     ("poll", ("invalid",), ("err",), "ok"), ("timeup",), ("poll", ("ok", True, None, 2), ("ok", 1, True), "err"),
+     ("poll", ("ok", True, None, 3), ("ok", 1, True), "ok"), ("client",), ("status_tick",)],
+    # malformed bodies on either side of the two cuts
+    [("poll", ("ok", True, None, 1), ("malformed", 1, "mid"), "ok"), ("status_tick",), ("provision", True), ("timeup",),
+     ("poll", ("ok", True, None, 1), ("malformed", 2, "far"), "ok"), ("status_tick",), ("provision", False), ("timeup",),
+     ("poll", ("ok", True, None, 1), ("ok", 3, True), "ok"), ("client",), ("provision", False)],
+    # a non-hex key next to a good one; the good one must stay confined
+    [("poll", ("ok", True, None, 1), ("ok", 1, True), "ok"), ("poll", ("ok", True, None, 1), ("ok", 2, False), "ok"), ("client",),
+     ("restart",), ("poll", ("ok", True, 2, 1), ("err",), "ok"), ("client",), ("poll", ("ok", True, 1, 1), ("err",), "ok"), ("client",)],
+]
+
+
+def gen_history(rng, faults=True):
+    enabled = rng.random() < 0.8
+    latched = None
+    next_kid = 1
+    hexness = {}
+    on_disk = set()
+    rule = 1
+    hist = []
+    polls = 0
+    n = rng.randint(3, 10)
+    while len(hist) < n:
+        r = rng.random()
+        if r < 0.45 and polls < 6:
+            # host-side changes between polls
+            hr = rng.random()
+            if hr < 0.10:
+                enabled = not enabled
+            elif hr < 0.20:
+                latched = None                      # rotation: the host forgets the latched key
+            elif hr < 0.27:
+                rule = rng.choice([1, 2, 3])
+            fr = rng.random() if faults else 1.0
+            if fr < 0.08:
+                st = ("err",)
+            elif fr < 0.16:
+                st = ("malformed",)
+            elif fr < 0.22:
+                st = ("invalid",)
+            else:
+                st = ("ok", enabled, latched, rule)
+            # the key response the host would give to a POST /secure-channel/key during this poll
+            kr = rng.random() if faults else 0.0
+            if latched is not None and rng.random() < 0.7:
+                k = ("ok", latched, hexness[latched])        # re-issue of the latched key
+            elif kr < 0.55:
+                kid = next_kid; next_kid += 1; hexness[kid] = True
+                k = ("ok", kid, True)
+            elif kr < 0.70:
+                kid = next_kid; next_kid += 1; hexness[kid] = False
+                k = ("ok", kid, False)
+            elif kr < 0.90:
+                kid = next_kid; next_kid += 1; hexness[kid] = True
+                k = ("malformed", kid, rng.choice(["early", "early", "mid", "far"]))
+            else:
+                k = ("err",)
+            a = "ok" if rng.random() < 0.85 else "err"
+            hist.append(("poll", st, k, a))
+            polls += 1
+            # what the host believes afterwards (only matters for the next status documents)
+            if st[0] == "ok" and enabled and k[0] == "ok":
+                if k[2] and a == "ok":
+                    latched = k[1]
+                elif not k[2] and rng.random() < 0.6:
+                    latched = k[1]                  # a faulty host that counts the non-hex key as latched
+        elif r < 0.53:
+            hist.append(("restart",))
+        elif r < 0.68:
+            hist.append(("client",))
+        elif r < 0.80:
+            hist.append(("provision", rng.random() < 0.5))
+        elif r < 0.90:
+            hist.append(("status_tick",))
+        else:
+            hist.append(("timeup",))
+    # make what leaked observable: every history ends with the observation ops
+    hist += [("client",), ("status_tick",), ("provision", False), ("timeup",)]
+    return hist
+
+
+def hist_json(hist):
+    return [list(o) if o[0] != "poll" else ["poll", list(o[1]), list(o[2]), o[3]] for o in hist]
+
+
+# ------------------------------------------------------------------------------------------
+# the check
+# ------------------------------------------------------------------------------------------
+HEX_SINKS = {"Log", "Stdout", "ConnLog"}
+BODY_SINKS = {"Log", "ConnLog", "Event", "StatusJson", "ProvisionTag", "SerialConsole", "ClientResponse"}
+
+
+def nonhex_kids(hist):
+    return {o[2][1] for o in hist if o[0] == "poll" and o[2][0] == "ok" and not o[2][2]}
+
+
+def malformed_kids(hist):
+    return {o[2][1] for o in hist if o[0] == "poll" and o[2][0] == "malformed"}
+
+
 def run(ctx):
-    raise NotImplementedError
+    vplib.gen_consts(ctx)
+    proofs_ok, detail = vplib.check_proofs(ctx)
+    ctx.log("proofs:", proofs_ok, detail[:200])
+    bins = vplib.cargo_build(ctx, "harness", ["c12"])
+    binary = bins["c12"]
+    rng = ctx.rng
+
+    n_random = 114 if ctx.quick else 600
+    n_strace = 24 if ctx.quick else 80
+    hists = [WITNESS_HEX, WITNESS_BODY] + FIXED_CASES
+    for i in range(n_random):
+        hists.append(gen_history(rng, faults=(i % 3 != 0)))
+    canaries = [make_canaries(rng, h) for h in hists]
+    variants = [rng.randrange(3) for _ in hists]
+    straced = set(range(len(FIXED_CASES) + 2)) | set(rng.sample(range(len(hists)), min(n_strace, len(hists))))
+
+    # ---------------- implementation ----------------
+    def one(i):
+        root, res = run_history(ctx, binary, hists[i], canaries[i], i, strace=(i in straced), variant=variants[i])
+        hexness = key_ids(hists[i])
+        obs, det, nfiles = scan(root, res, canaries[i], hexness)
+        tr = keydir_trace(root) if i in straced else None
+        outside = writes_outside(root) if i in straced else []
+        ok = all(r.get("ok") for r in res) and len(res) == len(segments(hists[i]))
+        err = next((r.get("error") for r in res if not r.get("ok")), None)
+        panics = [p for r in res for p in (r.get("panics") or [])]
+        if not os.environ.get("C12_KEEP"):
+            shutil.rmtree(root, ignore_errors=True)
+        return {"obs": obs, "details": det, "nfiles": nfiles, "trace": tr, "outside": outside, "ok": ok, "error": err, "panics": panics}
+
+    with ThreadPoolExecutor(max_workers=12) as ex:
+        impl = list(ex.map(one, range(len(hists))))
+    ctx.log("implementation: %d histories run" % len(hists))
+
+    # ---------------- which repairs does the tree carry?  decided by the two witnesses ----------------
+    cand = [(False, False), (True, False), (False, True), (True, True)]
+    wit = {v: model_eval(ctx, v, [WITNESS_HEX, WITNESS_BODY], name="wit%d%d" % v) for v in cand}
+    variant = (False, False)
+    for v in cand:
+        if wit[v][0][0] == impl[0]["obs"] and wit[v][1][0] == impl[1]["obs"]:
+            variant = v
+            break
+    ctx.log("variant (fix_hex, fix_body) decided by the witnesses:", variant)
+
+    # ---------------- model ----------------
+    model = model_eval(ctx, variant, hists)
+
+    # ---------------- compare + the property on the implementation's behaviour ----------------
+    known = {f.get("class") for f in vplib.known_findings("C12")}
+    disagreements, failures = [], []
+    leaks_seen = 0
+    for i, h in enumerate(hists):
+        im, (mvec, mtr) = impl[i], model[i]
+        case = {"index": i, "history": hist_json(h), "keys": {str(k): v for k, v in canaries[i].items()}, "body_variant": variants[i]}
+        if not im["ok"]:
+            disagreements.append({"case": case, "model": "history runs to completion", "impl": "driver error: %s" % im["error"]})
+            continue
+        if im["panics"]:
+            disagreements.append({"case": case, "model": "no panic", "impl": im["panics"][:3]})
+        if im["obs"] != mvec:
+            disagreements.append({"case": case, "model": {k: v for k, v in mvec.items() if v},
+                                  "impl": {k: v for k, v in im["obs"].items() if v}, "where": im["details"][:12]})
+        if im["trace"] is not None:
+            if trace_codes(im["trace"]) != mtr:
+                disagreements.append({"case": case, "model": mtr, "impl": trace_codes(im["trace"]), "what": "key directory syscall order"})
+            why = prop_trace(im["trace"])
+            if why:
+                failures.append({"case": case, "why": why, "impl": im["trace"]})
+            if im["outside"]:
+                disagreements.append({"case": case, "model": "all writes stay inside the configured directories", "impl": im["outside"]})
+        # the property itself: a key value occurs only in the key file (MACs are not occurrences)
+        for sink in SINKS:
+            if sink in ALLOWED:
+                continue
+            for kid in im["obs"][sink]:
+                leaks_seen += 1
+                where = [d for d in im["details"] if d[0] == sink and d[1] == kid][:3]
+                failures.append({"case": dict(case, sink=sink, kid=kid), "impl": where,
+                                 "why": "the value of key %d (canary %s) occurs in sink %s: %s" % (kid, canaries[i][kid], sink, where)})
+
+    def known_filter(f):
+        c = f["case"]
+        if "sink" not in c:
+            return None
+        h = [tuple(o) if o[0] != "poll" else ("poll", tuple(o[1]), tuple(o[2]), o[3]) for o in c["history"]]
+        if (not variant[0]) and c["kid"] in nonhex_kids(h) and c["sink"] in HEX_SINKS and "host_key_not_hex" in known:
+            return "F6a host_key_not_hex: a key the host delivers with a non-hex value reaches %s (Error::Hex text)" % c["sink"]
+        if (not variant[1]) and c["kid"] in malformed_kids(h) and c["sink"] in BODY_SINKS and "host_key_body_malformed" in known:
+            return "F6b host_key_body_malformed: an undeserialisable key body is echoed into %s (read_response_body error text)" % c["sink"]
+        return None
+
+    nontrivial = {json.dumps(hist_json(h)) for h in hists if any(o[0] == "poll" and o[1][0] == "ok" and o[1][1] for o in h)}
+    ctx.coverage.update({
+        "evaluations": len(hists),
+        "distinct_nontrivial": len(nontrivial),
+        "traces_validated_against_impl": len(hists) - len({d["case"]["index"] for d in disagreements}),
+        "rule": "2 refutation witnesses + %d hand-written histories + %d random histories (3..10 ops + 4 closing observation ops; <= 6 polls; host state machine "
+                "with enable/disable, rotation, rule changes; one third without host faults); non-trivial = at least one poll with a valid status "
+                "document of an enabled channel, distinct by content; every key id has a fresh random 64-character canary; %d histories under strace"
+                % (len(FIXED_CASES), n_random, len(straced)),
+        "exhaustive": False,
+        "variant_decided_by_witnesses": {"fix_hex": variant[0], "fix_body": variant[1]},
+        "files_scanned": sum(im["nfiles"] for im in impl),
+        "leak_observations": leaks_seen,
+        "samples": [
+            {"history": hist_json(hists[0]), "impl": {k: v for k, v in impl[0]["obs"].items() if v}, "model": {k: v for k, v in model[0][0].items() if v}},
+            {"history": hist_json(hists[1]), "impl": {k: v for k, v in impl[1]["obs"].items() if v}, "model": {k: v for k, v in model[1][0].items() if v}},
+            {"history": hist_json(hists[2]), "impl": {k: v for k, v in impl[2]["obs"].items() if v}, "model": {k: v for k, v in model[2][0].items() if v},
+             "keydir_trace": impl[2]["trace"]},
+        ],
+        "input_distribution": {
+            "histories": len(hists), "polls": sum(1 for h in hists for o in h if o[0] == "poll"),
+            "restarts": sum(1 for h in hists for o in h if o[0] == "restart"),
+            "client_requests": sum(1 for h in hists for o in h if o[0] == "client"),
+            "provision_queries": sum(1 for h in hists for o in h if o[0] == "provision"),
+            "status_faults": sum(1 for h in hists for o in h if o[0] == "poll" and o[1][0] != "ok"),
+            "nonhex_keys": sum(len(nonhex_kids(h)) for h in hists),
+            "malformed_key_bodies": sum(len(malformed_kids(h)) for h in hists),
+            "attest_failures": sum(1 for h in hists for o in h if o[0] == "poll" and o[3] == "err"),
+            "histories_with_any_leak": sum(1 for im in impl if any(im["obs"][s] for s in SINKS if s not in ALLOWED)),
+        },
+    })
+    ctx.assumptions += [
+        "the model is tied to the code by canary runs of the real code on the cases above, not by translation",
+        "completeness of the flow inventory is not proved: it is supported by scanning every file, stream and response each run produced",
+        "the agent runs as root; the redirector never reports ready (ALL_READY not reached); client requests go to a Default-authorizer destination",
+        "byte offsets of the two message cuts (1024, 4096) are abstracted to three layout classes realised by paddings with >= 400 bytes of margin",
+        "not modelled: core dumps, swap, /proc/<pid>/mem, file modes other than the key directory's, Windows (.encrypted / DPAPI) paths",
+    ]
+    verdict(ctx, proofs_ok, detail, disagreements, failures, known_filter,
+            corr_name="Taint.run / Taint.sys_trace vs canary scan and strace of the real KeyKeeper + ProxyServer + provision + status task")
